@@ -43,6 +43,8 @@ FIXED = [
  ("C18", "f15a74e", "a hybrid object assigned from another buffer to a non-reference field: below the stored copy the attribute values of Ref fields were still the source's dressed referents (other buffer), not the duplicates the copy references", "corpus/C18/nested_copy_keeps_source_referents.json"),
  ("C11", "5bd4a90", "a sequence assigned to a scalar slot (struct field, array item) was written in full and overran the slot (reported by a seeding sub-agent on the clean tree)", "corpus/C11/sequence_into_scalar_field.json"),
  ("C11", "6af4326", "Array._update left the items before a failing item modified", "corpus/C11/sequence_in_whole_array_update.json"),
+ ("C05", "d210566", "Ref slot bound in place an array of a same-named class with another axis order; the slot read other values than assigned", "corpus/C05/twin_axis_order_class_in_same_buffer.json"),
+ ("C08", "d210566", "Ref slot aliased an array object of a same-named twin class (other axis order) living in the holder's buffer", "corpus/C08/twin_axis_order_bound_in_place.json"),
 ]
 OPEN = []
 out = {"comment": "Read-only at run time. 'fixed' entries suppress nothing: the example is in corpus/ and is re-run by the check, so a regression is reported as a violation. 'open' entries are attributed by feature + counterfactual (DESIGN.md section 7).",
